@@ -300,5 +300,15 @@ def run(ctx, fb, cfg):
     import fdrules
 
     fdrules.check_operand_plumbing(ctx, lib, R + "K3.operand-plumbing", only=("plusz", "timesz"))
+    # a suspended constraint must still be in the store when its operands become ground: nothing but
+    # take_constraint / subsumption among disequalities removes constraints (shared with C02 / C22),
+    # and CLP(Z) constraints are not in the finite-domain registry (verify_all_bound would reject them)
+    import C02
+    import C22
+
+    C02.check_normalize(ctx, lib, R + "K6.normalize")
+    C22.check_store(ctx, lib, R + "K1K6.no-silent-removal")
+    if any(p.startswith("crate::relation::clpfd") for p in lib.fns):
+        fdrules.check_registry(ctx, lib, R + "K11.registry")
     check_one(ctx, lib, R + "K5K7.plusz", "PlusZ")
     check_one(ctx, lib, R + "K5K7.timesz", "TimesZ")
